@@ -20,6 +20,9 @@ use serde_json::json;
 use solana_program::pubkey::Pubkey;
 use std::collections::{BTreeMap, BTreeSet};
 
+const FRONTIER_CAP: usize = 20_000;
+static TRUNCATED: std::sync::atomic::AtomicU64 = std::sync::atomic::AtomicU64::new(0);
+
 struct T {
     cells: u64,
     classes: BTreeMap<String, u64>,
@@ -128,6 +131,82 @@ fn fee_collection(e: &Env, t: &mut T) {
     }
 }
 
+
+// ---------------------------------------------------------------- (A2) the fee wallet was rotated
+
+/// The global fee admin rotates the fee wallet; the group's cached copy is {still the old one, propagated}.
+/// Collection is offered the canonical token account of the old wallet and of the new wallet: program fees
+/// may only land in the token account of the *global* (current) wallet.
+fn rotated_wallet(e: &Env, t: &mut T) {
+    let w = &e.w;
+    for bi in [0usize, 2] {
+        let bh = &w.banks[bi];
+        let t22 = w.mints.get(&bh.mint).map(|m| m.t22).unwrap_or(false);
+        for propagated in [false, true] {
+            let mut s = e.s.clone();
+            let fs = world::fee_state(&s);
+            let new_wallet = world::key(&format!("C19:new-fee-wallet:{bi}"));
+            let r = process_tx(
+                &mut s,
+                &Tx::one(
+                    ix::edit_global_fee_state(w.fee_admin, w.fee_admin, new_wallet, fs.bank_init_flat_sol_fee, fs.liquidation_flat_sol_fee, fs.program_fee_fixed, fs.program_fee_rate, fs.liquidation_max_fee),
+                    &[w.fee_admin],
+                ),
+            );
+            if !r.ok() {
+                t.class(format!("rotated_wallet:{}:rotation_refused:{}", bh.label, crate::svm::err_name(r.code())));
+                continue;
+            }
+            if propagated {
+                let r = process_tx(&mut s, &Tx::one(ix::propagate_fee_state(w.group), &[w.payer]));
+                if !r.ok() {
+                    t.class(format!("rotated_wallet:{}:propagate_refused", bh.label));
+                    continue;
+                }
+            }
+            let new_ata = world::ata(&new_wallet, &bh.mint, &bh.token_program);
+            world::create_token_account_at(&mut s, &w.payer, &new_ata, &bh.mint, &new_wallet, t22);
+            world::edit_bank(&mut s, &bh.key, |b| {
+                b.collected_program_fees_outstanding = raw_i80(7.75).into();
+                b.collected_group_fees_outstanding = raw_i80(0.0).into();
+                b.collected_insurance_fees_outstanding = raw_i80(0.0).into();
+            });
+            for (which, dest) in [("old_wallet", bh.fee_ata), ("new_wallet", new_ata)] {
+                let mut post = s.clone();
+                let r = process_tx(&mut post, &Tx::one(ix::collect_bank_fees(w.group, bh.key, dest, bh.token_program, w.mint_meta(bh)), &[w.payer]));
+                t.cells += 1;
+                let cache = if propagated { "propagated" } else { "cache_stale" };
+                let rep = json!({"model": "C19A2", "bank": bi, "propagated": propagated, "dest": which});
+                if !r.ok() {
+                    t.class(format!("rotated_wallet:{}:{cache}:{which}:refused:{}", bh.label, crate::svm::err_name(r.code())));
+                    continue;
+                }
+                let got = world::token_amount(&post, &dest) as i128 - world::token_amount(&s, &dest) as i128;
+                t.class(format!("rotated_wallet:{}:{cache}:{which}:ok", bh.label));
+                if which == "new_wallet" && got <= 0 {
+                    t.found.push(Found {
+                        clause: "C19.destination_receives_its_bucket".into(),
+                        sig: format!("collect:rotated_wallet:{cache}:unpaid"),
+                        detail: format!("bank {}: after the global fee wallet was rotated ({cache}), collection committed but the global fee wallet's token account received {got} of the 7 whole program-fee tokens", bh.label),
+                        replay: rep.clone(),
+                    });
+                }
+                if which == "old_wallet" && got > 0 {
+                    t.found.push(Found {
+                        clause: "C19.destination_receives_its_bucket".into(),
+                        sig: format!("collect:rotated_wallet:{cache}"),
+                        detail: format!(
+                            "bank {}: after the global fee wallet was rotated ({cache}), collection paid {got} of program fees into the token account of the previous wallet, not the global fee wallet's",
+                            bh.label
+                        ),
+                        replay: rep,
+                    });
+                }
+            }
+        }
+    }
+}
+
 // ---------------------------------------------------------------- (B) draw-downs
 
 fn drawdowns(e: &Env, t: &mut T) {
@@ -158,6 +237,36 @@ fn drawdowns(e: &Env, t: &mut T) {
     }
 }
 
+/// Two-step draw-down: every signer x {the bank's group, the foreign group} in the group slot asks for the fee
+/// destination to be re-pointed at a token account of its own choosing, then a stranger withdraws fees
+/// "permissionlessly" into that account. Only the bank's own group admin may make that second step pay.
+fn repointed_destination(e: &Env, t: &mut T) {
+    let w = &e.w;
+    let bank = w.banks[0].key;
+    let attacker_dest = w.users[1].tokens[&w.banks[0].mint];
+    for (sname, sg) in &crate::checks::c08::signer_menu(e) {
+        for (gname, group) in [("own_group", w.group), ("foreign_group", e.f.group)] {
+            let legit = *sg == w.roles.admin && group == w.group;
+            let mut s = e.s.clone();
+            let r1 = process_tx(&mut s, &Tx::one(ix::update_fees_destination(group, bank, *sg, attacker_dest), &[*sg]));
+            t.cells += 1;
+            let f0 = world::token_amount(&s, &w.banks[0].fv);
+            // the permissionless withdrawal names the bank's real group
+            let r2 = process_tx(&mut s, &Tx::one(ix::withdraw_fees_permissionless(w.group, bank, attacker_dest, spl_token::id(), 5, vec![]), &[act::stranger()]));
+            let f1 = world::token_amount(&s, &w.banks[0].fv);
+            t.class(format!("repoint:{}:{gname}:{}:{}", if legit { "entitled" } else { "not_entitled" }, if r1.ok() { "repointed" } else { "refused" }, if r2.ok() { "paid" } else { "not_paid" }));
+            if !legit && r2.ok() && f1 < f0 {
+                t.found.push(Found {
+                    clause: "C19.vaults_drawn_only_by_admin_or_to_fixed_destination".into(),
+                    sig: format!("repoint:{sname}:{gname}"),
+                    detail: format!("update_fees_destination_account signed by {sname} with the {gname} in the group slot was accepted, after which a permissionless withdrawal drew the fee vault {f0} -> {f1} into that signer's choice of account"),
+                    replay: json!({"model": "C19B2", "signer": sname, "group": gname}),
+                });
+            }
+        }
+    }
+}
+
 // ---------------------------------------------------------------- (C) emissions accrual
 
 #[derive(Clone, Debug, PartialEq, Eq, serde::Serialize, serde::Deserialize)]
@@ -179,6 +288,67 @@ fn position(s: &Store, acct: &Pubkey, bank: &Pubkey) -> Option<(Q, Q, u64)> {
     let a = world::try_account(s, acct)?;
     let b = world::try_bank(s, bank)?;
     a.lending_account.balances.iter().find(|x| x.active != 0 && x.bank_pk == *bank).map(|x| (rf::q(x.asset_shares) * rf::q(b.asset_share_value), rf::q(x.emissions_outstanding), x.last_update))
+}
+
+
+// ---------------------------------------------------------------- (C0) funding the reward budget
+
+/// setup_emissions / update_emissions_parameters x reward mint {SPL, Token-2022 without fee, with a 1 % fee,
+/// with a fee capped low} x amounts: the budget the bank books (emissions_remaining) may never exceed the
+/// reward tokens that actually arrived in the bank's reward vault — otherwise credited rewards can exceed
+/// what was funded.
+fn emissions_funding(e: &Env, t: &mut T) {
+    let w = &e.w;
+    let bank = w.banks[1].key; // no rewards configured on this bank in the golden state
+    let admin = w.roles.emissions;
+    let specs: Vec<(&str, MintSpec)> = vec![
+        ("spl", MintSpec::spl("c19-em-spl", 6)),
+        ("t22_nofee", MintSpec::t22("c19-em-t22", 6, None)),
+        ("t22_fee1pct", MintSpec::t22("c19-em-t22-fee", 6, Some((100, u64::MAX / 4)))),
+        ("t22_fee_capped", MintSpec::t22("c19-em-t22-cap", 6, Some((250, 700)))),
+    ];
+    for (mname, spec) in &specs {
+        for &total in &[1u64, 99, 100, 1_000_000, 123_456_789] {
+            for &extra in &[0u64, 1, 101, 1_000_000, 77_777_777] {
+                let mut s = e.s.clone();
+                let mint = create_mint(&mut s, &w.payer, &w.mint_auth, spec);
+                let tp = spec.token_program();
+                let funding = create_token_account(&mut s, &w.payer, &format!("C19:emfund:{mname}"), &mint, &admin, spec.t22);
+                mint_to(&mut s, &w.mint_auth, &mint, &funding, spec.t22, 10_000_000_000);
+                let vault = ix::emissions_vault(&bank, &mint);
+                t.cells += 1;
+                let rep = json!({"model": "C19C0", "mint": mname, "total": total, "extra": extra});
+                let r = process_tx(&mut s, &Tx::one(ix::setup_emissions(w.group, admin, bank, mint, funding, tp, marginfi_type_crate::constants::EMISSIONS_FLAG_LENDING_ACTIVE, 1_000, total), &[admin]));
+                if !r.ok() {
+                    t.class(format!("funding:{mname}:setup:refused:{}", crate::svm::err_name(r.code())));
+                    continue;
+                }
+                t.class(format!("funding:{mname}:setup:ok"));
+                let mut judge = |s: &Store, step: &str, t: &mut T| {
+                    let booked = rf::q(world::bank(s, &bank).emissions_remaining);
+                    let held = rf::qu(world::token_amount(s, &vault));
+                    if booked > held {
+                        t.found.push(Found {
+                            clause: "C19.emissions_within_budget".into(),
+                            sig: format!("funding:{mname}:{step}"),
+                            detail: format!("reward mint {mname}, setup total {total}, top-up {extra}: after {step} the bank books a remaining reward budget of {:.3} but its reward vault holds {:.0}", rf::qf64(&booked), rf::qf64(&held)),
+                            replay: rep.clone(),
+                        });
+                    }
+                };
+                judge(&s, "setup_emissions", t);
+                if extra > 0 {
+                    let r = process_tx(&mut s, &Tx::one(ix::update_emissions_parameters(w.group, admin, bank, mint, funding, tp, None, None, Some(extra)), &[admin]));
+                    if !r.ok() {
+                        t.class(format!("funding:{mname}:top_up:refused:{}", crate::svm::err_name(r.code())));
+                        continue;
+                    }
+                    t.class(format!("funding:{mname}:top_up:ok"));
+                    judge(&s, "update_emissions_parameters", t);
+                }
+            }
+        }
+    }
 }
 
 fn emissions_sequences(e: &Env, tier: Tier, t: &mut T) -> u64 {
@@ -297,8 +467,9 @@ fn emissions_sequences(e: &Env, tier: Tier, t: &mut T) -> u64 {
             }
             states += next.len() as u64;
             frontier = next;
-            if frontier.len() > 3000 {
-                frontier.truncate(3000);
+            if frontier.len() > FRONTIER_CAP {
+                TRUNCATED.fetch_add((frontier.len() - FRONTIER_CAP) as u64, std::sync::atomic::Ordering::Relaxed);
+                frontier.truncate(FRONTIER_CAP);
             }
         }
     }
@@ -347,7 +518,10 @@ pub fn run(tier: Tier) -> Outcome {
     let e = golden::build_env();
     let mut t = T { cells: 0, classes: BTreeMap::new(), found: vec![], samples: vec![] };
     fee_collection(&e, &mut t);
+    rotated_wallet(&e, &mut t);
     drawdowns(&e, &mut t);
+    repointed_destination(&e, &mut t);
+    emissions_funding(&e, &mut t);
     let states = emissions_sequences(&e, tier, &mut t);
     reward_authorisation(&e, &mut t);
     let mut o = Outcome { level: "exploration".into(), ..Default::default() };
@@ -358,7 +532,7 @@ pub fn run(tier: Tier) -> Outcome {
         *n <= 2
     }).collect();
     let ok: u64 = t.classes.iter().filter(|(k, _)| k.ends_with(":ok") || k.contains(":ok:")).map(|(_, v)| *v).sum();
-    for need in ["collect:B6:ok:limited_by_liquidity", "collect:B6:ok:paid_in_full", "emissions:ample:Claim:ok", "emissions:nearly_exhausted:Claim:ok", "rewards:withdraw_emissions:normal:entitled:ok", "drawdown:withdraw_fees:entitled:ok"] {
+    for need in ["collect:B6:ok:limited_by_liquidity", "collect:B6:ok:paid_in_full", "emissions:ample:Claim:ok", "emissions:nearly_exhausted:Claim:ok", "rewards:withdraw_emissions:normal:entitled:ok", "drawdown:withdraw_fees:entitled:ok", "rotated_wallet:B6:cache_stale:new_wallet:ok", "funding:spl:top_up:ok", "repoint:entitled:own_group:repointed:paid", "repoint:not_entitled:foreign_group:refused:not_paid", "funding:t22_fee1pct:top_up:ok", "funding:t22_fee_capped:top_up:ok", "rotated_wallet:B6:propagated:new_wallet:ok"] {
         if *t.classes.get(need).unwrap_or(&0) == 0 {
             o.machinery.push(format!("vacuity guard: class {need} never occurred"));
         }
@@ -370,8 +544,9 @@ pub fn run(tier: Tier) -> Outcome {
         "evaluations": t.cells,
         "distinct_nontrivial": ok,
         "emission_states": states,
-        "rule": "(A) buckets {0, 0.25, 1, 1.75, 100.5, 250.5}^3 x liquidity {0, 1, 5, 300, 352, 353, 1e6} x {SPL bank, Token-2022 bank with a 1 % transfer fee}: each bucket falls by a whole number not above its whole part, the liquidity vault pays exactly that sum, each of insurance vault / fee vault / global fee wallet's canonical token account receives its own bucket's amount (net of the mint's fee), everything whole is paid when liquidity suffices; (B) {withdraw_fees, withdraw_insurance, withdraw_fees_permissionless} x 12 signers x {fixed destination, another token account}; (C) every sequence up to depth 4 (quick) / 5 of {deposit small / large, withdraw, withdraw-all, settle, claim} by two accounts and clock advances {30 d, 1 y} (at most two) x budgets {ample, nearly exhausted, zero rate, high rate}: credited rewards = elapsed x size-before x rate / year capped by the remaining budget, budget falls by exactly that and never below zero; (D) reward withdrawal {signed, permissionless} x 12 signers x {normal, in receivership, frozen, disabled} x {configured destination, another reward token account}",
-        "exhaustive": true,
+        "rule": "(A) buckets {0, 0.25, 1, 1.75, 100.5, 250.5}^3 x liquidity {0, 1, 5, 300, 352, 353, 1e6} x {SPL bank, Token-2022 bank with a 1 % transfer fee}: each bucket falls by a whole number not above its whole part, the liquidity vault pays exactly that sum, each of insurance vault / fee vault / global fee wallet's canonical token account receives its own bucket's amount (net of the mint's fee), everything whole is paid when liquidity suffices; (A2) after the global fee admin rotated the fee wallet, with the group's cached copy {stale, propagated}, collection offered the token account of {previous, current} wallet: nothing may be paid to the previous wallet's; (B) {withdraw_fees, withdraw_insurance, withdraw_fees_permissionless} x 12 signers x {fixed destination, another token account}; (B2) 12 signers x {own, foreign group in the group slot} re-point the fee destination, then a stranger withdraws permissionlessly into it: only the bank's own group admin can make that pay; (C0) setup_emissions x top-up through update_emissions_parameters x reward mint {SPL, Token-2022 without fee, 1 % fee, fee capped at 700} x totals {1, 99, 100, 1e6, 123456789} x top-ups {0, 1, 101, 1e6, 77777777}: the booked remaining budget never exceeds the tokens in the reward vault; (C) every sequence up to depth 4 (quick) / 5 of {deposit small / large, withdraw, withdraw-all, settle, claim} by two accounts and clock advances {30 d, 1 y} (at most two) x budgets {ample, nearly exhausted, zero rate, high rate}: credited rewards = elapsed x size-before x rate / year capped by the remaining budget, budget falls by exactly that and never below zero; (D) reward withdrawal {signed, permissionless} x 12 signers x {normal, in receivership, frozen, disabled} x {configured destination, another reward token account}",
+        "exhaustive": TRUNCATED.load(std::sync::atomic::Ordering::Relaxed) == 0,
+        "cap_hit": if TRUNCATED.load(std::sync::atomic::Ordering::Relaxed) == 0 { serde_json::Value::Null } else { json!(format!("reward-sequence frontier capped at {} states per layer; {} states were dropped from the last layers", FRONTIER_CAP, TRUNCATED.load(std::sync::atomic::Ordering::Relaxed))) },
         "outcome_classes": t.classes,
         "samples": t.samples,
     });
